@@ -815,6 +815,30 @@ def _enumeration(ctx, fn):
             import re as _re
 
             its[0] = _re.sub(r"(?<![A-Za-z0-9_])" + _re.escape(outer_var) + r"(?![A-Za-z0-9_])", "$v", its[0])
+        # a triangular double loop over one list - `for i, a in enumerate(xs): for b in xs[i + 1:]`, also with
+        # islice(xs, i + 1, None | len(xs) | i + 1 + len(xs)) - visits what combinations(xs, 2) visits, in that order
+        if len(loops) == 3:
+            lo_, mid_ = loops[0], loops[1]
+            if (
+                isinstance(mid_.iter, ast.Call) and isinstance(mid_.iter.func, ast.Name) and mid_.iter.func.id == "enumerate"
+                and len(mid_.iter.args) == 1 and not mid_.iter.keywords and isinstance(mid_.iter.args[0], ast.Name)
+                and isinstance(mid_.target, ast.Tuple) and len(mid_.target.elts) == 2 and isinstance(mid_.target.elts[0], ast.Name)
+                and isinstance(loops[2].target, ast.Name) and loops[2].target.id == mid_.iter.args[0].id
+            ):
+                xs_, i_ = mid_.iter.args[0].id, mid_.target.elts[0].id
+                it_ = ctx.norm.xexpr(f, lo_.iter)
+                start_ = (f"{i_} + 1", f"1 + {i_}")
+                tri = False
+                if isinstance(it_, ast.Subscript) and isinstance(it_.value, ast.Name) and it_.value.id == xs_ and isinstance(it_.slice, ast.Slice) \
+                        and it_.slice.lower is not None and ast.unparse(it_.slice.lower) in start_ and it_.slice.step is None \
+                        and (it_.slice.upper is None or ast.unparse(it_.slice.upper) == f"len({xs_})"):
+                    tri = True
+                elif isinstance(it_, ast.Call) and (dotted(it_.func) or "").endswith("islice") and len(it_.args) == 3 and not it_.keywords \
+                        and isinstance(it_.args[0], ast.Name) and it_.args[0].id == xs_ and ast.unparse(it_.args[1]) in start_ \
+                        and ast.unparse(it_.args[2]) in ("None", f"len({xs_})", f"{i_} + 1 + len({xs_})"):
+                    tri = True
+                if tri:
+                    its = ["itertools.combinations($v, 2)", its[2]]
         exp = [inner] + ([outer] if outer else [])
         bad_single = [
             n for n in own_nodes(f.node)
